@@ -83,7 +83,7 @@ class ExitTracer:
                     break
             offcache[offset] = ln
         label = table.get(ln, f"line{ln}")
-        if isinstance(retval, (bool,)) or type(retval).__name__ == "bool_":
+        if isinstance(retval, (bool, int)) or type(retval).__name__ in ("bool_", "bool"):
             rv = "T" if bool(retval) else "F"
         else:
             rv = type(retval).__name__
